@@ -311,6 +311,8 @@ def run(ctx):
     ncomp, nsend = (8, 150) if q else (150, 600)
     run_batch(ctx, [remap_ssrc(comp_script(rng, nsend), rng.choice(SSRC_TABLES)) for _ in range(ncomp)], "T-composition", FB)
     ctx.assumptions += [
+        "fewer than 65536 packets of a stream are outstanding (sent, not yet reported) in any script: a transport-wide number is "
+        "not reused while its first user is still in the history",
         "the TLA+ module FbDecode is the reading of the property: a TWCC packet declares Min(status count, symbols) statuses; "
         "every status with a delta (symbols 1, 2) consumes one delta whether or not the packet is remembered; symbol 3 and the "
         "RFC 8888 offset 0x1FFF mean 'received, arrival time unknown'; the recorded size is what the component stores at send "
